@@ -56,15 +56,15 @@ type H1 struct {
 	Script  Script
 
 	// runtime side
-	Pods       []*api.PodSandbox
-	Ctrs       []*api.Container
-	SyncLog    []SyncEvt
-	UpdLog     []*UpdEvt
-	UpdScript  func(n int, u []*api.ContainerUpdate) ([]*api.ContainerUpdate, string)
-	UpdGate    bool // park UpdateFn at a gate
-	InSync     int  // SyncFn calls in progress
-	Blocks     int  // sync blocks held by harness tasks (maintained by callers)
-	OnSyncEnter func()
+	Pods               []*api.PodSandbox
+	Ctrs               []*api.Container
+	SyncLog            []SyncEvt
+	UpdLog             []*UpdEvt
+	UpdScript          func(n int, u []*api.ContainerUpdate) ([]*api.ContainerUpdate, string)
+	UpdGate            bool // park UpdateFn at a gate
+	InSync             int  // SyncFn calls in progress
+	Blocks             int  // sync blocks held by harness tasks (maintained by callers)
+	OnSyncEnter        func()
 	GateOwnerPerPlugin bool
 }
 
@@ -87,13 +87,13 @@ type UpdEvt struct {
 
 // Plug is a scripted plugin implementing every handler.
 type Plug struct {
-	h      *H1
-	Name   string
-	Idx    string
-	Mask   api.EventMask // returned by Configure (0 = everything)
-	CfgErr string
-	Conn   *sim.Conn
-	Stub   stub.Stub
+	h        *H1
+	Name     string
+	Idx      string
+	Mask     api.EventMask // returned by Configure (0 = everything)
+	CfgErr   string
+	Conn     *sim.Conn
+	Stub     stub.Stub
 	StartErr error
 	Started  bool
 	Closed   int // OnClose calls
@@ -224,6 +224,9 @@ func (h *H1) StartTask(p *Plug) {
 // Registered reports whether the accept loop has finished processing plugin p's
 // connection (activated or rejected): it came back to Accept afterwards.
 func (h *H1) RegisteredStep(p *Plug) int { return h.L.AcceptStep(p.DialIdx + 1) }
+
+// runtimeEnd is the runtime-side end of the plugin's connection.
+func (h *H1) runtimeEnd(p *Plug) *sim.Conn { return p.Conn.Peer() }
 
 func (h *H1) PluginNames() []string {
 	h.mu.Lock()
